@@ -150,7 +150,7 @@ func (fc *FnCtx) trCall(st *State, call *ast.CallExpr) []Val {
 	}
 	if fn.Pkg() != nil && isVerifFile(fc.pkg.Fset.Position(fn.Pos()).Filename) {
 		switch fn.Name() {
-		case "forall", "exists", "implies", "ite", "iteS":
+		case "forall", "exists", "implies", "ite", "iteS", "byteStr":
 			return []Val{fc.trHelper(st, fn.Name(), call)}
 		}
 	}
@@ -177,6 +177,12 @@ func (fc *FnCtx) trCall(st *State, call *ast.CallExpr) []Val {
 		if c := fc.w.externs[key]; c != nil {
 			fc.externs[key] = true
 			return fc.callByContract(st, call, fn, recvExpr, c)
+		}
+	}
+	// regexp methods on a pattern whose literal is in the source: mechanical T2 facts
+	if recvExpr != nil && isNamed(sig.Recv().Type(), "regexp", "Regexp") {
+		if rs, ok := fc.trRegexpMethod(st, call, fn, recvExpr); ok {
+			return rs
 		}
 	}
 	return fc.havocCall(st, call, full)
@@ -424,7 +430,7 @@ func (fc *FnCtx) trContractCall(st *State, call *ast.CallExpr) Val {
 		v := fc.tr(tmp, call.Args[0])
 		st.assume = tmp.assume
 		return v
-	case "implies", "ite", "iteS", "forall", "exists":
+	case "implies", "ite", "iteS", "forall", "exists", "byteStr":
 		return fc.trHelper(st, name, call)
 	}
 	return fc.trContractCall2(st, call, name)
@@ -433,6 +439,9 @@ func (fc *FnCtx) trContractCall(st *State, call *ast.CallExpr) Val {
 // trHelper: implies / ite / forall / exists, in contract clauses and in spec function bodies.
 func (fc *FnCtx) trHelper(st *State, name string, call *ast.CallExpr) Val {
 	switch name {
+	case "byteStr":
+		v := fc.tr(st, call.Args[0])
+		return Val{T: "(appendbyte emptystr " + v.T + ")", S: SStr}
 	case "implies":
 		a := fc.tr(st, call.Args[0])
 		st.guard = append(st.guard, a.T)
